@@ -205,3 +205,20 @@ def distinctness_axioms():
     for c in atoms_only:
         out.append(("atom-not-str:%s" % c, z3.Not(is_str(c))))
     return out
+
+
+# dict deletion
+dict_del = fn("dict_del", V, V, V)
+
+
+def _core2():
+    s, k, x = const("s"), const("k"), const("x")
+    T = "core"
+    axiom(T, "dict-del-has", FA([s, k, x], has(dict_del(s, k), x) == z3.And(x != k, has(s, x)), [has(dict_del(s, k), x)]))
+    axiom(T, "dict-del-get", FA([s, k, x], z3.Implies(x != k, get(dict_del(s, k), x) == get(s, x)), [get(dict_del(s, k), x)]))
+    axiom(T, "dict-del-len", FA([s, k], z3.And(len_(dict_del(s, k)) == z3.If(has(s, k), len_(s) - 1, len_(s)), is_dictlike(dict_del(s, k))),
+                                [dict_del(s, k)]))
+    axiom(T, "has-len", FA([s, x], z3.Implies(has(s, x), len_(s) >= 1), [has(s, x)]))
+
+
+_core2()
